@@ -2,6 +2,7 @@ package sym
 
 import (
 	"fmt"
+	"strings"
 
 	"golang.org/x/tools/go/ssa"
 )
@@ -307,6 +308,17 @@ func (e *Engine) checkAssert(st *State, c ssa.CallInstruction, cond *Term, label
 		return
 	}
 	res, model := e.modelFor(st, e.TT.Not(cond))
+	needsCollision := false
+	if res == Sat && e.InjectiveUF != "" {
+		// prefer a counterexample that needs no hash collision (it can be replayed against the real hash)
+		if inj := e.injectivity(append(append([]*Term(nil), st.pc...), cond)); len(inj) > 0 {
+			if r2, m2 := e.modelFor(st, append([]*Term{e.TT.Not(cond)}, inj...)...); r2 == Sat {
+				model = m2
+			} else {
+				needsCollision = true
+			}
+		}
+	}
 	if e.CrossEvery > 0 && res != Unknown {
 		e.crossCount++
 		if e.crossCount%e.CrossEvery == 0 {
@@ -334,10 +346,60 @@ func (e *Engine) checkAssert(st *State, c ssa.CallInstruction, cond *Term, label
 	}
 	e.Stats.AssertSat++
 	as.Failed++
-	e.addEvent(Event{Kind: "assert", Label: label, Pos: e.posOf(st, c.Pos()), Model: model})
+	ev := Event{Kind: "assert", Label: label, Pos: e.posOf(st, c.Pos()), Model: model}
+	if needsCollision {
+		ev.Detail = "needs-collision"
+	}
+	e.addEvent(ev)
 	// continue under the assumption that the assertion holds (other violations are still searched)
 	st.addPC(cond)
 	if !e.feasible(st, e.TT.True) {
 		st.done = true
 	}
+}
+
+// injectivity returns constraints saying that the uninterpreted functions whose name starts
+// with e.InjectiveUF are injective on the applications occurring in the given terms
+// (also across arities, which are different functions per string length).
+func (e *Engine) injectivity(roots []*Term) []*Term {
+	tt := e.TT
+	seen := map[int]bool{}
+	var apps []*Term
+	var walk func(t *Term)
+	walk = func(t *Term) {
+		if seen[t.ID] {
+			return
+		}
+		seen[t.ID] = true
+		if t.Op == OpUF && strings.HasPrefix(t.Name, e.InjectiveUF) {
+			apps = append(apps, t)
+		}
+		for _, a := range t.Args {
+			walk(a)
+		}
+	}
+	for _, r := range roots {
+		walk(r)
+	}
+	var out []*Term
+	for i := 0; i < len(apps); i++ {
+		for j := i + 1; j < len(apps); j++ {
+			a, b := apps[i], apps[j]
+			same := tt.False
+			if a.Name == b.Name && len(a.Args) == len(b.Args) {
+				eqs := make([]*Term, len(a.Args))
+				for k := range a.Args {
+					eqs[k] = tt.Eq(a.Args[k], b.Args[k])
+				}
+				same = tt.And(eqs...)
+			}
+			// the callers use the low 32 bits of the value (uint32 hashes)
+			la, lb := a, b
+			if a.W > 32 && b.W > 32 {
+				la, lb = tt.Extract(a, 31, 0), tt.Extract(b, 31, 0)
+			}
+			out = append(out, tt.Or(same, tt.Not(tt.Eq(la, lb))))
+		}
+	}
+	return out
 }
